@@ -1,6 +1,8 @@
 //! Verification harness for google/omaha-client: property-based testing and fuzzing.
 pub mod cupref;
 pub mod engine;
+pub mod jsongen;
 pub mod props;
+pub mod respgen;
 pub mod tape;
 pub mod urlref;
